@@ -56,7 +56,9 @@ class World:
         if k == 'approve':
             # a genuine member's signature over ANOTHER message about the same block (the ton.blockIdApprove constructor, or any
             # other prefix): not a signature over this block's identifier
-            msg = self.rng.choice([b'IJ\xd4-', b'\x2d\xd4\x4a\x49', b'', b'pn\x0b\xc4']) + self.blk.root_hash + self.blk.file_hash
+            msg = b'IJ\xd4-' + self.blk.root_hash + self.blk.file_hash
+        if k == 'prefix':
+            msg = self.rng.choice([b'\x2d\xd4\x4a\x49', b'', b'pn\x0b\xc4', b'\xc5\x0b\x6e\x70']) + self.blk.root_hash + self.blk.file_hash
         sig = key.sign(msg).signature
         if k == 'invalid':
             b = bytearray(sig)
@@ -161,7 +163,7 @@ def generate(tier, seed, ctx):
             items.insert(rng.randrange(len(items) + 1), (0, 'valid'))                          # foreign
         elif mode < 0.5 and items:
             j = rng.randrange(len(items))
-            items[j] = (items[j][0], rng.choice(['invalid', 'other', 'long', 'short', 'padded', 'long', 'approve', 'approve']))
+            items[j] = (items[j][0], rng.choice(['invalid', 'other', 'long', 'short', 'padded', 'long', 'approve', 'prefix']))
         out.append(w.run(weights, items, layout=rng.random() < 0.05))
     # main-net scale weights (total around 2^60) within a few units of exactly two thirds: 3 * signed - 2 * total = target
     for _ in range(40 if q else 800):
@@ -196,6 +198,7 @@ def generate(tier, seed, ctx):
     for weights, good, bad in (([1, 1, 1], [], [1, 2, 3]), ([1, 1, 1], [1, 2], [3]), ([2, 1], [], [1, 2]), ([5], [], [1]), ([3, 3, 3, 1], [1, 2], [3])):
         out.append(w.run(weights, [(s_, 'valid') for s_ in good] + [(s_, 'approve') for s_ in bad]))
         out.append(w.run(weights, [(s_, 'approve') for s_ in bad] + [(s_, 'valid') for s_ in good], parsed=True))
+        out.append(w.run(weights, [(s_, 'valid') for s_ in good] + [(s_, 'prefix') for s_ in bad]))
     # total weights beyond 2^64 (each weight a legal uint64): unanimous and near-unanimous sets
     for weights in ([1 << 63] * 3, [(1 << 64) - 1, (1 << 64) - 1, 1], [(1 << 64) - 1] * 6, [1 << 63, 1 << 63]):
         n = len(weights)
